@@ -161,8 +161,8 @@ def cursor_check(prop, tier, seed):
             3 if q else 1, take=9000, leaf_types=["vec", "bytesmut"], wraps=("ref",))
 
     elif prop == "C12":
-        dm = K.design_mc("C12_design", 3 if not q else 2, 2, 1 if q else 2, [2, 3], ["remaining", "advance", "copy_to_bytes", "chunks_vectored", "try_copy_to_slice"],
-                         [], [0], leaf_types=["slice", "deque", "bytes"], wraps=("ref",), sample_k=150 if q else 300, seed=seed)
+        dm = K.design_mc("C12_design", 2, 2, 1 if q else 2, [2, 3], ["remaining", "advance", "copy_to_bytes", "chunks_vectored", "try_copy_to_slice"],
+                         [], [0], leaf_types=["slice", "deque", "bytes"], wraps=("ref",), sample_k=150 if q else 300, seed=seed, timeout=1500 if q else 5000)
         design_progs = dm.pop("design_programs")
         gens.append(dm)
         gen("bufsim", "buf", 4 if not q else 3, 4, 4, [0, 2, 3], ["advance", "copy_to_slice", "copy_to_bytes", "read", "set_limit", "consume", "remaining", "get", "chunks_vectored", "chunk", "into_iter", "iter_nth"],
